@@ -10,8 +10,10 @@
 // verdicts must not depend on them): the ORDER of the policy's trust store list (where the tsa store stands, what
 // stands around it), the UTC offset the envelope's times are written with (JWS: RFC 3339 with the signer's offset),
 // the verifier's own local time zone (time.Local, sequential family), a chain with an INTERMEDIATE certificate
-// that has its own validity window, and signing times two hours outside a window edge (so that a shift by a zone
-// offset crosses the edge).
+// that has its own validity window, signing times two hours outside a window edge (so that a shift by a zone
+// offset crosses the edge), and the validity windows of the TSA's OWN certificates (tsawin.go: expired / not yet valid /
+// about to expire at the verification instant, around the token's genTime) - the clause "issued by an unrevoked TSA"
+// holds whatever their age.
 package main
 
 import (
@@ -30,7 +32,6 @@ import (
 	"sync/atomic"
 	"time"
 
-	"github.com/notaryproject/notation-core-go/revocation/result"
 	"github.com/notaryproject/notation-go"
 	"github.com/notaryproject/notation-go/verifier"
 	"github.com/notaryproject/notation-go/verifier/trustpolicy"
@@ -183,6 +184,8 @@ type caseT struct {
 	// countersignature comes from a TSA whose certificate names a CRL served by the harness on 127.0.0.1
 	// (tsa_rev 0: not listed, 1: listed as revoked, 2: the CRL cannot be fetched)
 	RevVia int `json:"tsa_validator_source"`
+	// TSAWin: validity windows of the certificates of the trusted TSA (tsaWins, tsawin.go); 0 = both valid now
+	TSAWin int `json:"tsa_cert_window"`
 }
 
 // Prior values: histories before the judged call
@@ -192,7 +195,7 @@ var priors = []string{"", "[after a fine signature on the same verifier] ",
 var priorKeys = []string{"", ":after-earlier-verification-on-same-verifier", ":after-another-verifier-object-configured-differently", ":another-verifier-object-created-in-between"}
 
 func (c caseT) secondary() bool {
-	return c.Layout != 0 || c.Zone != 0 || c.Mid != 0 || c.VZone != 0 || c.RevVia != 0 || c.Sign >= firstEdgeSign || c.Expiry >= firstFarExpiry || c.LeafW >= firstNestedWindow || c.CAW >= firstNestedWindow
+	return c.Layout != 0 || c.Zone != 0 || c.Mid != 0 || c.VZone != 0 || c.RevVia != 0 || c.TSAWin != 0 || c.Sign >= firstEdgeSign || c.Expiry >= firstFarExpiry || c.LeafW >= firstNestedWindow || c.CAW >= firstNestedWindow
 }
 
 // storeList renders the trustStores list of the case (and says which entries it uses).
@@ -218,7 +221,7 @@ func (c caseT) storeList() []string {
 func (c caseT) String() string {
 	sec := ""
 	if c.secondary() {
-		sec = fmt.Sprintf(" | trustStores=%v envelope-times-written-in=%s %s verifier-zone=%s tsa-validator=%s", c.storeList(), envZones[c.Zone].Name, mids[c.Mid], verifierZones[c.VZone].Name, []string{"given-by-the-caller", "built-in(CRL-on-127.0.0.1)"}[c.RevVia])
+		sec = fmt.Sprintf(" | trustStores=%v envelope-times-written-in=%s %s verifier-zone=%s tsa-validator=%s %s", c.storeList(), envZones[c.Zone].Name, mids[c.Mid], verifierZones[c.VZone].Name, []string{"given-by-the-caller", "built-in(CRL-on-127.0.0.1)"}[c.RevVia], tsaWins[c.TSAWin].Name)
 	}
 	return priors[c.Prior] + fmt.Sprintf("%s %s verifyTimestamp=%q leaf=%s ca=%s signed@%s %s %s %s %s", []string{"x509", "signingAuthority"}[c.Scheme], tsaPolicies[c.TSAPol], options[c.Option], windows[c.LeafW].Name, windows[c.CAW].Name, signTimes[c.Sign].Name, expiries[c.Expiry].Name, tokens[c.Token].Name, tsaRevs[c.TSARev], []string{"jws", "cose"}[c.Format]) + sec
 }
@@ -230,11 +233,16 @@ type world struct {
 	spare  *pki.Cert // an unrelated root for the store of the other signing type
 	// TSA hierarchy with revocation information: one root, three time-stamping certificates naming a CRL of the root
 	// served by crlSrv: [0] not listed, [1] listed as revoked, [2] names a CRL that cannot be fetched
-	crlAuth []*tsa.Authority
+	// crlAuth[tsa window][answer]; only for the TSA windows that keep the root's window (tsaWinsWithCRL)
+	crlAuth map[int][]*tsa.Authority
 	crlSrv  *httptest.Server
-	desc    ocispec.Descriptor
-	envs    sync.Map
-	mu      sync.Mutex
+	// tsaAuth[i]: the trusted TSA with the certificate windows tsaWins[i] ([0] = auth[0]); tsaRootsExtra: the roots
+	// of the variants that have a root of their own
+	tsaAuth       []*tsa.Authority
+	tsaRootsExtra []*pki.Cert
+	desc          ocispec.Descriptor
+	envs          sync.Map
+	mu            sync.Mutex
 
 	observed, controls, controlsOK atomic.Int64 // cases observable through the all-log level; positive controls
 	forgeBroken                    atomic.Value // string: a zoned envelope could not be built as intended
@@ -265,8 +273,12 @@ func (w *world) chain(lw, mid, cw int) *pki.Chain {
 }
 
 func (w *world) envelope(c caseT) []byte {
-	type k struct{ s, lw, mid, cw, st, ex, tk, f, z, via int }
-	key := k{c.Scheme, c.LeafW, c.Mid, c.CAW, c.Sign, c.Expiry, c.Token, c.Format, c.Zone, c.RevVia * (1 + c.TSARev)}
+	type k struct{ s, lw, mid, cw, st, ex, tk, f, z, via, tw int }
+	tw := c.TSAWin
+	if !tokenTakesTSAWindow(tokens[c.Token]) {
+		tw = 0 // the same envelope
+	}
+	key := k{c.Scheme, c.LeafW, c.Mid, c.CAW, c.Sign, c.Expiry, c.Token, c.Format, c.Zone, c.RevVia * (1 + c.TSARev), tw}
 	if b, ok := w.envs.Load(key); ok {
 		return b.([]byte)
 	}
@@ -304,8 +316,11 @@ func (w *world) envelope(c caseT) []byte {
 				}
 			}
 			au := w.auth[tk.Authority]
+			if tk.Authority == 0 {
+				au = w.tsaAuth[tw] // the trusted TSA with the case's certificate windows
+			}
 			if c.RevVia == 1 && tk.Authority == 0 {
-				au = w.crlAuth[c.TSARev] // same trusted hierarchy question, but a certificate that names a CRL
+				au = w.crlAuth[tw][c.TSARev] // same trusted hierarchy question, but a certificate that names a CRL
 			}
 			return au.Token(tsa.Opts{Message: sig, GenTime: w.now.Add(tk.Gen), AccuracySeconds: tk.Acc, WrongImprint: tk.Wrong})
 		}
@@ -341,12 +356,19 @@ func (w *world) crlHierarchy() {
 	}))
 	nb, na := w.now.Add(-30*day), w.now.Add(30*day)
 	root := pki.Make(pki.Tmpl{Subject: pki.Name("c06 crl tsa root"), CA: true, PathLen: -1, NotBefore: nb, NotAfter: na}, pki.Key(pki.RSA2048, 220), nil)
-	for i, path := range []string{"/tsa.crl", "/tsa.crl", "/missing.crl"} {
-		leaf := pki.Make(pki.Tmpl{Subject: pki.Name(fmt.Sprintf("c06 crl tsa %d", i)), NotBefore: nb, NotAfter: na, KeyUsage: x509.KeyUsageDigitalSignature,
-			EKU: []x509.ExtKeyUsage{x509.ExtKeyUsageTimeStamping}, EKUCritical: true, CRLURLs: []string{w.crlSrv.URL + path}}, pki.Key(pki.RSA2048, 221+i), root)
-		w.crlAuth = append(w.crlAuth, &tsa.Authority{Root: root, Leaf: leaf})
+	w.crlAuth = map[int][]*tsa.Authority{}
+	var revoked []*big.Int
+	for _, tw := range tsaWinsWithCRL() {
+		// the leaf's window is the TSA window's; names and keys are the same for every window
+		lf, lt := w.now.Add(tsaWins[tw].LeafFrom), w.now.Add(tsaWins[tw].LeafTo)
+		for i, path := range []string{"/tsa.crl", "/tsa.crl", "/missing.crl"} {
+			leaf := pki.Make(pki.Tmpl{Subject: pki.Name(fmt.Sprintf("c06 crl tsa %d", i)), NotBefore: lf, NotAfter: lt, KeyUsage: x509.KeyUsageDigitalSignature,
+				EKU: []x509.ExtKeyUsage{x509.ExtKeyUsageTimeStamping}, EKUCritical: true, CRLURLs: []string{w.crlSrv.URL + path}}, pki.Key(pki.RSA2048, 221+i), root)
+			w.crlAuth[tw] = append(w.crlAuth[tw], &tsa.Authority{Root: root, Leaf: leaf})
+		}
+		revoked = append(revoked, w.crlAuth[tw][1].Leaf.Cert.SerialNumber)
 	}
-	crlDER = pki.CRL(root, 1, w.now.Add(-2*day), w.now.Add(20*day), []*big.Int{w.crlAuth[1].Leaf.Cert.SerialNumber}, 0).Raw
+	crlDER = pki.CRL(root, 1, w.now.Add(-2*day), w.now.Add(20*day), revoked, 0).Raw
 }
 
 // ---- reference clock model (DESIGN.md A.2) ----
@@ -355,6 +377,8 @@ type expect struct {
 	ExpiryFails bool
 	TSPasses    bool
 	Why         string
+	// Unjudged: the statement says neither that the validation passes nor that it fails (recorded only)
+	Unjudged bool
 }
 
 func (w *world) model(c caseT) expect { return w.modelAt(c, 0) }
@@ -413,6 +437,9 @@ func (w *world) modelAt(c caseT, nowOff time.Duration) expect {
 		e.Why = "timestamping applies: time range of the countersignature not inside every certificate window"
 	case c.TSARev != 0:
 		e.Why = "timestamping applies: TSA revocation not OK"
+	case !tsaValidAtGen(c):
+		e.Unjudged = true
+		e.Why = "timestamping applies: countersignature issued outside the TSA certificates' own validity (not judged)"
 	default:
 		e.TSPasses = true
 		e.Why = "timestamping applies: valid countersignature inside every window"
@@ -446,7 +473,7 @@ func (w *world) run(r *hx.Run, c caseT) {
 	stores := c.storeList()
 	switch c.TSAPol {
 	case 1:
-		ts.Put("tsa", "t", w.auth[0].Root.Cert, w.auth[2].Root.Cert, w.auth[3].Root.Cert, w.crlAuth[0].Root.Cert)
+		ts.Put("tsa", "t", w.trustedTSARoots()...)
 	case 2:
 		ts.Errs["tsa:t"] = errors.New("mock: tsa store cannot be loaded")
 	case 3:
@@ -457,21 +484,12 @@ func (w *world) run(r *hx.Run, c caseT) {
 		// when the list names it) ALSO holds every TSA root. Only tsa stores may anchor a countersignature, so this
 		// changes nothing for a correct verifier - and it lets a verifier that takes TSA roots from the wrong stores
 		// (or from all stores, or from the neighbour in the list) pass a token the policy's tsa store does not cover.
-		for _, a := range append(append([]*tsa.Authority{}, w.auth...), w.crlAuth[0]) {
-			ts.Put(caType, "s", a.Root.Cert)
-			ts.Put(otherType, "o", a.Root.Cert)
+		for _, root := range w.allTSARoots() {
+			ts.Put(caType, "s", root)
+			ts.Put(otherType, "o", root)
 		}
 	}
-	var rvr []result.Result
-	var rverr error
-	switch c.TSARev {
-	case 1:
-		rvr = []result.Result{result.ResultRevoked, result.ResultOK}
-	case 2:
-		rvr = []result.Result{result.ResultOK, result.ResultUnknown}
-	case 3:
-		rverr = errors.New("mock: timestamping validator failed")
-	}
+	rvr, rverr := tsaRevAnswer(c.TSARev)
 	tsaValidator := mocks.Fixed(rvr, rverr)
 	sv := trustpolicy.SignatureVerification{VerificationLevel: "strict", VerifyTimestamp: options[c.Option], Override: map[trustpolicy.ValidationType]trustpolicy.ValidationAction{
 		trustpolicy.TypeAuthenticTimestamp: trustpolicy.ActionLog, trustpolicy.TypeExpiry: trustpolicy.ActionLog, trustpolicy.TypeRevocation: trustpolicy.ActionSkip}}
@@ -488,9 +506,7 @@ func (w *world) run(r *hx.Run, c caseT) {
 		ostores := []string{caType + ":s"}
 		if c.TSAPol == 0 {
 			ostores = append(ostores, "tsa:t")
-			for _, a := range append(append([]*tsa.Authority{}, w.auth...), w.crlAuth[0]) {
-				ots.Put("tsa", "t", a.Root.Cert)
-			}
+			ots.Put("tsa", "t", w.allTSARoots()...)
 		}
 		oopt := trustpolicy.OptionAlways
 		if options[c.Option] == trustpolicy.OptionAlways {
@@ -571,7 +587,9 @@ func (w *world) run(r *hx.Run, c caseT) {
 		}
 	}
 	gotPass := tsListed && tsPassed
-	if gotPass && !want.TSPasses {
+	if want.Unjudged {
+		r.Outcome(fmt.Sprintf("recorded:token-issued-outside-the-tsa-certificates-validity/timestamp-passed=%v", gotPass))
+	} else if gotPass && !want.TSPasses {
 		bad("timestamp/passed:"+slug(want.Why), "authentic-timestamp validation passed; model: "+want.Why)
 	}
 	if want.TSPasses {
@@ -597,7 +615,7 @@ func (w *world) run(r *hx.Run, c caseT) {
 	r.Outcome(fmt.Sprintf("%s | %s | expiry-fails=%v", cls, want.Why, want.ExpiryFails))
 	r.Nontrivial(fmt.Sprintf("%+v", c))
 	// strict level: the overall verdict follows the two validations
-	if c.TSARev == 0 && c.Format == 0 {
+	if c.TSARev == 0 && c.Format == 0 && !want.Unjudged {
 		sv2 := trustpolicy.SignatureVerification{VerificationLevel: "strict", VerifyTimestamp: options[c.Option], Override: map[trustpolicy.ValidationType]trustpolicy.ValidationAction{trustpolicy.TypeRevocation: trustpolicy.ActionSkip}}
 		v2, err := verifier.NewVerifierWithOptions(ts, mkOpts(sv2, mocks.Fixed(rvr, rverr)))
 		if err == nil {
@@ -654,6 +672,21 @@ func (w *world) clockFamily(r *hx.Run) {
 								cases = append(cases, caseT{Scheme: sc, TSAPol: tp, Option: opt, LeafW: lw, Expiry: ex, Token: tk, Format: f})
 							}
 						}
+					}
+				}
+			}
+		}
+	}
+	// TSA certificates that expire (or have expired) while the clock moves x revocation answer of the TSA
+	for _, tw := range []int{1, 6} {
+		for rev := 0; rev < 2; rev++ {
+			for _, opt := range []int{0, 2} {
+				for lw := 0; lw < 2; lw++ {
+					for f := 0; f < 2; f++ {
+						if !r.Thorough() && f == 1 && (lw != 0 || opt != 0) {
+							continue
+						}
+						cases = append(cases, caseT{TSAPol: 1, Option: opt, LeafW: lw, Token: 1, TSARev: rev, Format: f, TSAWin: tw})
 					}
 				}
 			}
@@ -782,10 +815,19 @@ func (w *world) clockPair(r *hx.Run, c caseT, offs []time.Duration) {
 	if c.TSAPol == 1 {
 		stores = append(stores, "tsa:t")
 		ts.Put("tsa", "t", w.auth[0].Root.Cert)
+		if root := w.tsaAuth[c.TSAWin].Root; root != w.auth[0].Root {
+			ts.Put("tsa", "t", root.Cert)
+		}
 	}
 	sv := trustpolicy.SignatureVerification{VerificationLevel: "strict", VerifyTimestamp: options[c.Option], Override: map[trustpolicy.ValidationType]trustpolicy.ValidationAction{
 		trustpolicy.TypeAuthenticTimestamp: trustpolicy.ActionLog, trustpolicy.TypeExpiry: trustpolicy.ActionLog, trustpolicy.TypeRevocation: trustpolicy.ActionSkip}}
-	v, err := verifier.NewVerifierWithOptions(ts, verifier.VerifierOptions{OCITrustPolicy: vt.OCIDoc(sv, stores, []string{"*"}), RevocationCodeSigningValidator: mocks.AllOK(), RevocationTimestampingValidator: mocks.AllOK()})
+	// the TSA revocation answer of the case (the histories of the first family all have tsa-rev-ok)
+	tsaValidator := mocks.AllOK()
+	if c.TSARev != 0 {
+		rvr, rverr := tsaRevAnswer(c.TSARev)
+		tsaValidator = mocks.Fixed(rvr, rverr)
+	}
+	v, err := verifier.NewVerifierWithOptions(ts, verifier.VerifierOptions{OCITrustPolicy: vt.OCIDoc(sv, stores, []string{"*"}), RevocationCodeSigningValidator: mocks.AllOK(), RevocationTimestampingValidator: tsaValidator})
 	if err != nil {
 		r.Infra("verifier: %v", err)
 		return
@@ -825,7 +867,7 @@ func (w *world) clockPair(r *hx.Run, c caseT, offs []time.Duration) {
 			}
 		}
 		got := tsListed && tsPassed
-		if got && !want.TSPasses {
+		if got && !want.TSPasses && !want.Unjudged {
 			bad(fmt.Sprintf("timestamp-passes=%v-model=%v:step%d", got, want.TSPasses, step+1), fmt.Sprintf("verification instant now%+v: authentic-timestamp passed; model: %s", off, want.Why))
 		}
 		if want.TSPasses {
@@ -878,8 +920,8 @@ func slug(s string) string {
 
 func main() {
 	r := hx.New("C06")
-	r.Rule = "time-line product: scheme x tsa store in policy x verifyTimestamp x (leaf, CA) validity windows x signing time x expiry x countersignature state x TSA revocation answer x format; quick = every case with at most 5 deviations from the default case, thorough = the full product (minus envelopes core-go cannot parse: expiry not after signing time); crossed with the secondary dimensions the model must not depend on - order of the trustStores list (tsa store last / first / in the middle, a store of the other signing type around it) x UTC offset the JWS envelope's times are written with x an intermediate certificate with its own window x signing times two hours outside a window edge x validity windows strictly nested inside valid-now (both edges differ) x expiry / signing instants centuries ago (before the Unix epoch, before 1678) - up to 3 (thorough 5) deviations in total when one of them deviates; every case with <= 2 deviations again with the verifier's local time zone (time.Local) set to +05:45 and -08:00, and again with ANOTHER verifier object of the opposite configuration (timestamping validator given / not given, tsa store in an equally named statement, verifyTimestamp) created and used before the judged verifier is created / between its creation and the judged call (one at a time); the judged verifier WITHOUT a timestamping validator (built-in check against a CRL served on 127.0.0.1: not listed / revoked / not fetchable) x verifyTimestamp x leaf window x format x all four histories; clock-advance histories and frozen-clock boundary reads through the clock seam; one real verifier.Verify per case under an all-log level (+ one under strict); non-trivial = every distinct case (each has its own expected pair of results)"
-	r.Assumptions = []string{"the verification instant is the real clock; every generated instant is >= 1 h away from it, so each case has one outcome whenever it runs", "countersignatures are forged by lib/tsa (offline RFC 3161 authority); tokens from public TSAs are outside the bound", "reference clock model: DESIGN.md appendix A.2 (harness/c06 model())", "the built-in revocation check reaches the harness's CRL server on 127.0.0.1 (no other network)", "COSE envelopes carry Unix seconds, so the envelope-zone dimension exists for JWS only; certificate and token times are DER (always UTC)"}
+	r.Rule = "time-line product: scheme x tsa store in policy x verifyTimestamp x (leaf, CA) validity windows x signing time x expiry x countersignature state x TSA revocation answer x format; quick = every case with at most 5 deviations from the default case, thorough = the full product (minus envelopes core-go cannot parse: expiry not after signing time); crossed with the secondary dimensions the model must not depend on - order of the trustStores list (tsa store last / first / in the middle, a store of the other signing type around it) x UTC offset the JWS envelope's times are written with x an intermediate certificate with its own window x signing times two hours outside a window edge x validity windows strictly nested inside valid-now (both edges differ) x expiry / signing instants centuries ago (before the Unix epoch, before 1678) - up to 3 (thorough 5) deviations in total when one of them deviates; every case with <= 2 deviations again with the verifier's local time zone (time.Local) set to +05:45 and -08:00, and again with ANOTHER verifier object of the opposite configuration (timestamping validator given / not given, tsa store in an equally named statement, verifyTimestamp) created and used before the judged verifier is created / between its creation and the judged call (one at a time); the judged verifier WITHOUT a timestamping validator (built-in check against a CRL served on 127.0.0.1: not listed / revoked / not fetchable) x verifyTimestamp x leaf window x format x all four histories; the TSA CERTIFICATE WINDOW dimension (tsawin.go: certificates of the trusted TSA valid now / leaf expired 1 d ago / root expired 1 d ago / both expired 2 h ago / leaf valid only from 6 d to 4 d ago / leaf valid since 3 d ago / leaf expires in 1 d; same leaf key and subject, same root where the root's window is kept) as a full product with TSA revocation answer x verifyTimestamp x signing leaf window (valid now, expired) x the five well-formed trusted tokens x format x history on the same verifier, plus window x {ok, revoked} x format crossed with one deviation of every other dimension, x the two other verifier zones, x the two other-verifier-object histories, x the built-in CRL check (windows that keep the root), and in the clock-advance histories (TSA leaf that expires between / before the two instants x {ok, revoked}); a TSA whose revocation answer is not OK never lets the validation pass whatever the age of its certificates, a token issued outside the TSA certificates' own validity is recorded and not judged; clock-advance histories and frozen-clock boundary reads through the clock seam; one real verifier.Verify per case under an all-log level (+ one under strict); non-trivial = every distinct case (each has its own expected pair of results)"
+	r.Assumptions = []string{"the verification instant is the real clock; every generated instant is >= 1 h away from it, so each case has one outcome whenever it runs", "countersignatures are forged by lib/tsa (offline RFC 3161 authority); tokens from public TSAs are outside the bound", "reference clock model: DESIGN.md appendix A.2 (harness/c06 model())", "the built-in revocation check reaches the harness's CRL server on 127.0.0.1 (no other network)", "COSE envelopes carry Unix seconds, so the envelope-zone dimension exists for JWS only; certificate and token times are DER (always UTC)", "TSA certificate windows: the statement's 'issued by an unrevoked TSA chaining to the policy's tsa stores' is read as independent of the age of the TSA certificates at verification time; whether a token whose genTime lies outside the TSA certificates' own validity must be refused is not stated and not judged; the harness's CRL keeps listing a revoked TSA certificate after its expiry"}
 	now := time.Now().Truncate(time.Second)
 	w := &world{now: now, chains: map[[3]int]*pki.Chain{}}
 	w.spare = pki.NewChain(pki.ChainOpts{Len: 2, Prefix: "c06-unrelated", CAIdx: 7}).Root()
@@ -888,6 +930,7 @@ func main() {
 	w.desc = ocispec.Descriptor{MediaType: "application/vnd.oci.image.manifest.v1+json", Digest: digest.FromString("c06"), Size: 3}
 	nb, na := now.Add(-30*day), now.Add(30*day)
 	w.auth = []*tsa.Authority{tsa.New("trusted", 0, tsa.LeafProper, nb, na), tsa.New("untrusted", 1, tsa.LeafProper, nb, na), tsa.New("noncritical", 2, tsa.LeafEKUNotCritical, nb, na), tsa.New("codesigning", 3, tsa.LeafCodeSigning, nb, na)}
+	w.tsaHierarchies()
 
 	if r.Replay != "" {
 		var cc clockCase
@@ -967,15 +1010,48 @@ func main() {
 		}
 	}
 	rec(0, nil, 0, false)
+	// TSA certificate windows: the full product with the dimensions the clause "issued by an unrevoked TSA" speaks of
+	// (tsawin.go), minus what the deviation-bounded product above already holds
+	{
+		have := map[caseT]bool{}
+		for _, c := range cases {
+			have[c] = true
+		}
+		n := 0
+		for _, c := range append(tsaWindowFamily(), tsaWindowCrossFamily()...) {
+			if e := expiries[c.Expiry]; e.Set && e.Off <= signTimes[c.Sign].Off {
+				continue // malformed envelope, as above
+			}
+			if !have[c] {
+				have[c] = true
+				cases = append(cases, c)
+				n++
+			}
+		}
+		r.Extra["tsa_cert_window_family_cases(added to cases)"] = n
+		objCases = append(objCases, tsaWindowObjectFamily()...)
+		for tw := 1; tw < len(tsaWins); tw++ {
+			for rev := 0; rev < 2; rev++ {
+				for vz := 1; vz < len(verifierZones); vz++ {
+					zoneCases = append(zoneCases, caseT{TSAPol: 1, Token: 1, TSARev: rev, TSAWin: tw, VZone: vz})
+				}
+			}
+		}
+	}
 	// the judged verifier without a timestamping validator of its own (built-in check against the CRL the harness
 	// serves): answer of the CRL x verifyTimestamp x leaf window x format x history (none, same object, other object
 	// before / in between). One at a time, after the parallel part.
-	for rev := 0; rev < 3; rev++ {
-		for opt := range options {
-			for lw := 0; lw < 2; lw++ {
-				for f := 0; f < 2; f++ {
-					for p := range priors {
-						objCases = append(objCases, caseT{TSAPol: 1, Option: opt, LeafW: lw, Token: 1, TSARev: rev, Format: f, RevVia: 1, Prior: p})
+	for _, tw := range tsaWinsWithCRL() {
+		for rev := 0; rev < 3; rev++ {
+			for opt := range options {
+				for lw := 0; lw < 2; lw++ {
+					for f := 0; f < 2; f++ {
+						for p := range priors {
+							if tw != 0 && !r.Thorough() && (f == 1 || p >= 2) && opt != 0 {
+								continue
+							}
+							objCases = append(objCases, caseT{TSAPol: 1, Option: opt, LeafW: lw, Token: 1, TSARev: rev, Format: f, RevVia: 1, Prior: p, TSAWin: tw})
+						}
 					}
 				}
 			}
@@ -998,6 +1074,7 @@ func main() {
 	r.Extra["envelope_zones"] = fmt.Sprint(envZones)
 	r.Extra["verifier_zones"] = fmt.Sprint(verifierZones)
 	r.Extra["intermediate"] = fmt.Sprint(mids)
+	r.Extra["tsa_cert_windows"] = tsaWinNames()
 	// positive control: the default case and the fully valid countersignature case must pass
 	ctrl := []caseT{{}, {TSAPol: 1, Token: 1}, {TSAPol: 1, Token: 1, LeafW: 1}, {Scheme: 1}}
 	for _, c := range ctrl {
